@@ -84,21 +84,23 @@ func smtIdent(s string) string {
 // ---------------- state ----------------
 
 type State struct {
-	vars   map[types.Object]*Term
-	heaps  map[string]*Term
-	alloc  *Term
-	pc     []*Term
-	ghost  map[string]*Term
-	epoch  int // number of havoc-all events so far
-	arank  int // allocation rank (monotone along a path)
-	eqs    map[string]*Term
-	locks  map[string]bool
-	defers []*ast.CallExpr
-	dead   bool
+	vars    map[types.Object]*Term
+	heaps   map[string]*Term
+	alloc   *Term
+	pc      []*Term
+	ghost   map[string]*Term
+	epoch   int // number of havoc-all events so far
+	arank   int // allocation rank (monotone along a path)
+	eqs     map[string]*Term
+	rewrite func(*Term) *Term // normalisation of assumed quantified formulas
+	splits  []*Term           // boolean constants worth a case split in proofs (e.g. append capacity tests)
+	locks   map[string]bool
+	defers  []*ast.CallExpr
+	dead    bool
 }
 
 func (s *State) clone() *State {
-	n := &State{vars: make(map[types.Object]*Term, len(s.vars)), heaps: make(map[string]*Term, len(s.heaps)), alloc: s.alloc, ghost: map[string]*Term{}, epoch: s.epoch, locks: map[string]bool{}, arank: s.arank}
+	n := &State{vars: make(map[types.Object]*Term, len(s.vars)), heaps: make(map[string]*Term, len(s.heaps)), alloc: s.alloc, ghost: map[string]*Term{}, epoch: s.epoch, locks: map[string]bool{}, arank: s.arank, rewrite: s.rewrite}
 	for k, v := range s.vars {
 		n.vars[k] = v
 	}
@@ -117,6 +119,7 @@ func (s *State) clone() *State {
 			n.eqs[k] = v
 		}
 	}
+	n.splits = append([]*Term(nil), s.splits...)
 	n.pc = append([]*Term(nil), s.pc...)
 	n.defers = append([]*ast.CallExpr(nil), s.defers...)
 	return n
@@ -125,6 +128,9 @@ func (s *State) clone() *State {
 func (s *State) assume(t *Term) {
 	if t == nil || t.isTrue() {
 		return
+	}
+	if s.rewrite != nil && (t.Op == "forall" || t.Op == "exists" || t.Op == "=>" || t.Op == "not" || t.Op == "or") {
+		t = s.rewrite(t)
 	}
 	if t.Op == "and" && !t.IsLit {
 		for _, a := range t.Args {
@@ -291,6 +297,11 @@ type Verifier struct {
 	resStack       [][]*types.Var
 	sweep          bool
 	caseLabel      string
+	sliceRoot      map[*types.Var]*types.Var
+	inSplit        bool
+	heapAxioms     []*Term
+	heapAxDone     map[string]bool
+	heapAxOf       map[string]*Term
 	axiomSet       map[*Term]bool
 	obligeHook     func(s *State, g *Term)
 	nQueries       int
@@ -344,6 +355,57 @@ func (v *Verifier) oblige(s *State, class, label string, goal *Term, p token.Pos
 	}
 	if v.caseLabel != "" {
 		label += "@" + v.caseLabel
+	}
+	// case split on recorded boolean constants (each case substitutes the constant,
+	// which lets the simplifier remove the ite terms that depend on it)
+	if len(s.splits) > 0 && len(s.splits) <= 2 && hasQuant(goal) && !v.inSplit {
+		used := map[string]string{}
+		goal.Symbols(used, map[string]bool{})
+		for _, p := range s.pc {
+			p.Symbols(used, map[string]bool{})
+		}
+		var cs []*Term
+		for _, c := range s.splits {
+			if _, ok := used[c.Op]; ok {
+				cs = append(cs, c)
+			}
+		}
+		if len(cs) > 0 {
+			v.inSplit = true
+			for mask := 0; mask < 1<<len(cs); mask++ {
+				m := map[string]*Term{}
+				tag := ""
+				for i, c := range cs {
+					if mask&(1<<i) != 0 {
+						m[c.Op] = TTrue
+						tag += "T"
+					} else {
+						m[c.Op] = TFalse
+						tag += "F"
+					}
+				}
+				ns := s.clone()
+				ns.pc = nil
+				ns.rewrite = nil
+				dead := false
+				for _, p := range s.pc {
+					q := p.Subst(m)
+					if q.isFalse() {
+						dead = true
+						break
+					}
+					if !q.isTrue() {
+						ns.pc = append(ns.pc, q)
+					}
+				}
+				if dead {
+					continue
+				}
+				v.oblige(ns, class, label+"|"+tag, goal.Subst(m), p, desc)
+			}
+			v.inSplit = false
+			return
+		}
 	}
 	key := class + ":" + label
 	v.counter[key]++
@@ -654,14 +716,98 @@ func (v *Verifier) entryHeap(name, sort string) *Term {
 }
 
 func (v *Verifier) sliceHeapName(elemSort string) string { return "H_" + sortTag(elemSort) }
+
+func isRefType(t types.Type) bool {
+	switch t.Underlying().(type) {
+	case *types.Pointer, *types.Map, *types.Chan, *types.Signature:
+		return true
+	}
+	return false
+}
+
+// sliceHeapNameT: slices of reference-typed elements get a heap per element type
+// (so that "every stored reference is older than the allocator" can be stated);
+// all other element types share a heap per SMT sort.
+func (v *Verifier) sliceHeapNameT(elem types.Type) string {
+	if isRefType(elem) {
+		return "H_ref_" + smtIdent(types.TypeString(elem, func(p *types.Package) string { return p.Name() }))
+	}
+	if w, signed, ok := intInfo(elem); ok && v.mode != "bv" {
+		// int mode: one heap per integer width/signedness, so that the range of the
+		// stored values is a heap-level fact
+		if signed {
+			return fmt.Sprintf("H_int%d", w)
+		}
+		return fmt.Sprintf("H_uint%d", w)
+	}
+	return v.sliceHeapName(v.sortOf(elem))
+}
+
+// refAxiom: a well-formedness fact for the first version of a heap: references
+// stored in memory were allocated earlier (a global invariant of Go memory).
+func (v *Verifier) refAxiom(s *State, h *Term, valType types.Type, twoLevel bool) {
+	if valType == nil || h.Op == "store" || len(h.Args) > 0 {
+		return
+	}
+	if ax, ok := v.heapAxOf[h.Op]; ok {
+		if ax != nil {
+			s.pc = append(s.pc, ax)
+		}
+		return
+	}
+	v.heapAxOf[h.Op] = nil
+	al := s.alloc
+	if strings.HasSuffix(h.Op, "@0") && v.entry != nil {
+		al = v.entry.alloc // entry heaps only hold references that existed at entry
+	}
+	lo := Mul(IntLit(-64), al)
+	bound := func(x *Term) *Term { return And(Le(lo, x), Lt(x, al)) }
+	var fact func(x *Term) *Term
+	switch valType.Underlying().(type) {
+	case *types.Pointer, *types.Map, *types.Chan:
+		fact = bound
+	case *types.Slice:
+		fact = func(x *Term) *Term { return bound(SBase(x)) }
+	case *types.Interface:
+		fact = func(x *Term) *Term { return Lt(IVal(x), al) }
+	case *types.Basic:
+		w, signed, ok := intInfo(valType)
+		if !ok || v.mode == "bv" {
+			return
+		}
+		rlo, rhi := typeRange(w, signed)
+		fact = func(x *Term) *Term { return And(Le(IntLitB(rlo), x), Le(x, IntLitB(rhi))) }
+	default:
+		return
+	}
+	r := v.fresh("hr", SInt)
+	_, vs, _ := arrSorts(h.Sort)
+	var ax *Term
+	if twoLevel {
+		i := v.fresh("hi", SInt)
+		_, es, _ := arrSorts(vs)
+		x := Select(Select(h, r), i)
+		ax = Forall([]*Term{r, i}, fact(x), mk("select", es, mk("select", vs, h, r), i))
+	} else {
+		x := Select(h, r)
+		ax = Forall([]*Term{r}, fact(x), mk("select", vs, h, r))
+	}
+	s.pc = append(s.pc, ax)
+	v.heapAxOf[h.Op] = ax
+}
 func (v *Verifier) sliceHeapSort(elemSort string) string {
 	return SArr(SInt, SArr(SInt, elemSort))
 }
 
 func (v *Verifier) sliceHeap(s *State, elem types.Type) (name string, h *Term, es string) {
 	es = v.sortOf(elem)
-	name = v.sliceHeapName(es)
-	return name, v.getHeap(s, name, v.sliceHeapSort(es)), es
+	name = v.sliceHeapNameT(elem)
+	_, existedBefore := s.heaps[name]
+	h = v.getHeap(s, name, v.sliceHeapSort(es))
+	if !existedBefore {
+		v.refAxiom(s, h, elem, true)
+	}
+	return name, h, es
 }
 
 // readElem reads element i (Int term, relative index) of slice sl.
@@ -723,7 +869,11 @@ func (v *Verifier) loadField(s *State, ref *Term, st types.Type, idx int) *Term 
 	}
 	fs := v.sortOf(f.Type())
 	name := v.heapName("F", structTypeName(st), f.Name())
+	_, existedBefore := s.heaps[name]
 	h := v.getHeap(s, name, SArr(SInt, fs))
+	if !existedBefore {
+		v.refAxiom(s, h, f.Type(), false)
+	}
 	val := v.hsel(s, h, ref)
 	v.noteRead(s, val, f.Type())
 	return val
